@@ -46,9 +46,26 @@ fn main() {
     };
     let mut pre = scan(world.db());
     let zero = BigInt::from(0);
-    for i in 0..args.cases {
+    let plan = boundary_plan();
+    let nb = plan.len();
+    for i in 0..(nb + args.cases) {
         let mut rng = root.fork(i as u64);
-        let tx = world.next_tx(&mut rng);
+        let tx = if i < nb {
+            // deterministic boundary family, identical for every seed
+            match world.boundary_step(i) {
+                Some((class, tx)) => {
+                    report.count(&format!("bf_{}", class));
+                    tx
+                }
+                None => {
+                    report.count(&format!("bf_skipped_{}", plan[i].0));
+                    continue;
+                }
+            }
+        } else {
+            world.next_tx(&mut rng)
+        };
+        let scripted = i < nb;
         report.count(&format!("tx_{}", tx.label));
         let receipt = match world.run(&tx) {
             Ok(r) => r,
@@ -59,11 +76,15 @@ fn main() {
         };
         let post = scan(world.db());
         report.count(&format!("outcome_{}", outcome_class(&receipt)));
+        if scripted && (outcome_class(&receipt) != "success") != tx.expect_fail {
+            report.count("bf_outcome_not_as_scripted");
+            report.notes.push(format!("boundary step {} ({}) ended as {} (scripted: {})", i, tx.label, outcome_class(&receipt), if tx.expect_fail { "failure" } else { "success" }));
+        }
         report.count(&format!("txo_{}_{}", tx.label, outcome_class(&receipt)));
         if std::env::var("VH_DEBUG").is_ok() {
             if let TransactionResult::Commit(c) = &receipt.result {
                 if let TransactionOutcome::Failure(e) = &c.outcome {
-                    report.notes.push(format!("{} {} expect_fail={}: {}", i, tx.label, tx.expect_fail, format!("{:?}", e).chars().take(260).collect::<String>()));
+                    report.notes.push(format!("{} {} expect_fail={}: {}", i, tx.label, tx.expect_fail, format!("{:?}", e).chars().take(1200).collect::<String>()));
                 }
             }
         }
@@ -261,6 +282,13 @@ fn main() {
     report.extra.insert("db_nodes_final".into(), json!(pre.nodes));
     report.extra.insert("resources_final".into(), json!(pre.res.len()));
     report.extra.insert("vaults_final".into(), json!(pre.fvaults.len() + pre.nvaults.len()));
+    let mut per_class: BTreeMap<&'static str, u64> = BTreeMap::new();
+    for (c, _) in &plan {
+        *per_class.entry(*c).or_default() += 1;
+    }
+    for (c, k) in &per_class {
+        report.floor(&format!("bf_{}", c), *k);
+    }
     let n = args.cases as u64;
     report.floor("outcome_success", n / 3);
     report.floor("outcome_failure", n / 40);
